@@ -49,6 +49,12 @@ def gen_ChunkConsts():
     out = [PRELUDE]
     for name in ["TARGET_CHUNK_SIZE", "MINIMUM_CHUNK_DIVISOR", "MAXIMUM_CHUNK_MULTIPLIER", "MAX_XORB_BYTES", "MAX_XORB_CHUNKS"]:
         out.append("Definition %s : N := %d.\n" % (name, cc_const(c, name)))
+    # which of these the environment may override in every build: the xorb limits are (HF_XET_MAX_XORB_BYTES / _CHUNKS are the
+    # "configured limits" of C15 in release builds too); the chunk-size constants are fixed in release builds (seed C15-r4m1)
+    for name, fixed in [("TARGET_CHUNK_SIZE", True), ("MINIMUM_CHUNK_DIVISOR", True), ("MAXIMUM_CHUNK_MULTIPLIER", True), ("MAX_XORB_BYTES", False), ("MAX_XORB_CHUNKS", False)]:
+        m = c.one(r"\bref %s\s*:\s*\w+\s*=\s*(release_fixed\()?" % re.escape(name), "constant " + name)
+        if (m.group(1) is not None) != fixed:
+            raise TranslateError("constant %s is %s fixed in release builds (the configured xorb limits must be honoured in every build; the chunk-size constants are fixed there)" % (name, "now" if not fixed else "no longer"))
     body_new = k.fn_body("new")
     body_next = k.fn_body("next")
     hw = re.search(r"const HASH_WINDOW_SIZE\s*:\s*usize\s*=\s*(\d+)\s*;", body_next)
